@@ -16,7 +16,7 @@
 (* compiler+planner hybrids), pipelines.  Overlap: only registries whose   *)
 (* engines share an operation mode with engine 1 (the quick tier)  .       *)
 (***************************************************************************)
-EXTENDS Factory
+EXTENDS Factory, SequencesExt
 CONSTANTS Menu, Three, MaxPipe, Feats, Overlap
 
 F2 == SUBSET Feats      \* Feats = {"f"} or {"f", "g"}
@@ -71,9 +71,12 @@ Next == /\ phase = 0 /\ phase' = 1
 Spec == Init /\ [][Next]_vars
 
 \* resulting_problem_kind of the registry's compilers as a table
-RKTab == {[e |-> n, ck |-> c, in |-> fs,
-           out |-> IF reg[n].boom THEN [k |-> "exc", f |-> {}, x |-> "Boom"] ELSE [k |-> "kind", f |-> fs \ reg[n].rem, x |-> ""]] :
-          n \in DOMAIN reg, c \in {"C", "D", "E"}, fs \in F2}
+F2Seq == TLCEval(SetToSeq(F2))
+RKTab == [key \in (DOMAIN reg) \X {"C", "D", "E"} |->
+            [j \in DOMAIN F2Seq |->
+               [in |-> F2Seq[j],
+                out |-> IF reg[key[1]].boom THEN [k |-> "exc", f |-> {}, x |-> "Boom"]
+                        ELSE [k |-> "kind", f |-> F2Seq[j] \ reg[key[1]].rem, x |-> ""]]]]
 
 Ready == phase = 1
 
@@ -102,7 +105,7 @@ SingleOK == Ready => \A r \in Requests : SingleClauses(r)
 \* kind produced by the compilers before it (ChainOK); when the factory gives up at stage i, no
 \* listed engine qualifies for the kind reaching stage i; the judge accepts the Impl answer.
 PipeClauses(fs, cks) ==
-   LET tab == RKTab
+   LET tab == TLCEval(RKTab)
        i == ImplPipe(reg, prefs, tab, fs, cks)
        s == Pipe(reg, prefs, tab, fs, cks)
    IN /\ i.k = s.k /\ i.stages = s.stages /\ i.at = s.at
